@@ -707,8 +707,15 @@ class CallMixin:
                 raise EngineError("old() outside a postcondition")
             s = st.old.copy()
             s.pc = st.pc
+            s.old = st.old  # old(old(e)) == old(e)
+            s.ghost = dict(st.ghost)  # at_return(...) stays usable under old(...)
+            s.guards = list(st.guards)
+            # variables bound by enclosing quantifiers stay visible inside old(...)
+            s.store = dict(s.store)
+            for k, v in st.store.items():
+                if k not in s.store:
+                    s.store[k] = v
             r = self.evs(e.args[0], s)
-            st.pc = s.pc
             return [(st, r)]
         if name == "at_entry":
             if not st.loop_entries:
@@ -738,6 +745,7 @@ class CallMixin:
             lo = self.evs(e.args[0], st)
             hi = self.evs(e.args[1], st)
             lam = e.args[2]
+            unb_lo, unb_hi = isinstance(lo.t, TNone), isinstance(hi.t, TNone)
             if not isinstance(lam, ast.Lambda):
                 raise EngineError("forall/exists needs a lambda")
             var = lam.args.args[0].arg
@@ -746,7 +754,7 @@ class CallMixin:
             s.store = dict(st.store)
             s.store[var] = SV(INT, q)
             s.pc = []  # facts about the bound variable must stay inside the quantifier
-            rng = z3.And(q >= lo.z, q < hi.z)
+            rng = z3.And(*([] if unb_lo else [q >= lo.z]) + ([] if unb_hi else [q < hi.z])) if not (unb_lo and unb_hi) else z3.BoolVal(True)
             s.guards = list(st.guards) + [rng]
             body = self.spec_bool(lam.body, s)
             local = z3.And(*s.pc) if s.pc else z3.BoolVal(True)
@@ -761,6 +769,8 @@ class CallMixin:
             v = self.evs(e.args[0], st)
             if st.old is None:
                 raise EngineError("fresh() outside a postcondition")
+            if isinstance(v.t, TOpt):
+                v = sym.opt_val(v)
             return [(st, SV(BOOL, z3.And(v.z >= st.old.alloc, v.z < st.alloc)))]
         if name == "typeis":
             v = self.evs(e.args[0], st)
